@@ -85,6 +85,7 @@ where
         let b_iter = product2_iter(&w0.simplex.belief, &w1.simplex.belief);
         let a = MArrD2::product2(&w0.base_rate, &w1.base_rate);
         let u = izip!(p_iter.clone(), b_iter, &a)
+            .filter(|(_, _, &a)| a > V::zero())
             .map(|(p, b, &a)| (p - b) / a)
             .reduce(V::min)
             .unwrap();
@@ -110,6 +111,7 @@ where
         let b_iter = product3_iter(&w0.simplex.belief, &w1.simplex.belief, &w2.simplex.belief);
         let a = MArrD3::product3(&w0.base_rate, &w1.base_rate, &w2.base_rate);
         let u = izip!(p_iter.clone(), b_iter, &a)
+            .filter(|(_, _, &a)| a > V::zero())
             .map(|(p, b, &a)| (p - b) / a)
             .reduce(V::min)
             .unwrap();
